@@ -29,9 +29,10 @@ SPEC = dict(
             "start-exactly-on-rollover-instant", "start-within-skew-of-boundary",
             "restart-in-third-0", "restart-in-third-1", "restart-in-third-2", "restart-exactly-at-rollover-instant",
             "restart-serves-same-certificate", "restart-serves-announced-next", "restart-serves-later-certificate",
-            "learned-addr-checked-across-restart", "rollovers>=3", "rollovers>=6",
+            "learned-addr-checked-across-restart", "restart-drops-previous-period-hash", "rollovers>=3", "rollovers>=6",
             "verifier-valid", "verifier-hash-not-listed-as-sha2-256", "verifier-expired", "verifier-not-yet-valid",
-            "verifier-lifetime-over-14-days", "verifier-rsa", "verifier-empty-chain"],
+            "verifier-lifetime-over-14-days", "verifier-rsa", "verifier-rsa-pss", "verifier-rsa-subject-key",
+            "verifier-empty-chain", "verifier-chain-pinned-cert-not-first"],
     real=["p2p/transport/webtransport: certManager (cert_manager.go), generateCert/getTLSConf/verifyRawCerts (crypto.go), "
           "extractCertHashes/addrComponentForCert (multiaddr.go)", "benbjohnson/clock (real clock on the bubble's fake time)",
           "crypto/x509, crypto/ecdsa, filippo.io/keygen, x/crypto/hkdf"],
